@@ -193,6 +193,10 @@ def cases(tier, seed):
                                    (0.1, 1.0, 3)):
             yield {"k": "retry", "gen": gen, "seed": rnd.randrange(1 << 30), "step": step,
                    "pause": pause, "calls": calls, "again_after_true": step < 0.5}
+    for gen in (4, 5):
+        for steady, pause in ((0.0, 0.0), (1.0, 6.0), (400.0, 0.5)):
+            yield {"k": "overlap", "gen": gen, "seed": rnd.randrange(1 << 30), "steady": steady,
+                   "pause": pause}
     # zero zones explicitly
     for gen in (4, 5):
         for i in range(6):
@@ -298,9 +302,65 @@ def run_retry(case):
             "obs": obs, "sample": info}
 
 
+def run_overlap(case):
+    """init() issued by another task while shutdown() has not returned yet (it has only just
+    started: one loop turn). Whatever that call returns - once both calls are over, a plain
+    init() against the answering console works."""
+    gen = case["gen"]
+    rnd = random.Random(case["seed"])
+    inst, meta = installation(gen, rnd, None)
+    viol, obs, out = [], {}, {}
+
+    async def main(loop, net, log):
+        w = AW.ModelWorld(gen, loop, net, log, inst, C.Knobs())
+        if await w.init() is not True:
+            out["first"] = False
+            return
+        await asyncio.sleep(case["steady"])
+        sd = loop.create_task(w.at.shutdown())
+        await asyncio.sleep(0)
+        out["overlapped"] = await H.probe(log, "init", w.at.init())
+        await sd
+        await asyncio.sleep(case["pause"])
+        await quiesce(loop)
+        out["later"] = await H.probe(log, "init", w.at.init())
+        await quiesce(loop)
+        out["initialised"] = w.at.initialised
+        out["snap"] = H.snapshot(w.at)
+        await w.at.shutdown()
+        await quiesce(loop)
+        out["open_at_end"] = [c.id for c in net.open_conns()]
+
+    _, log, st = H.run(main)
+    info = {"gen": gen, "steady": case["steady"], "pause": case["pause"]}
+    if st != "ok":
+        viol.append({"mechanism": "init-overlap-scenario-hang", "detail": dict(info, status=st)})
+    elif out.get("first") is False:
+        pass
+    elif out["later"] is not True or not out["initialised"]:
+        viol.append({"mechanism": "init-fails-after-an-init-that-overlapped-a-shutdown",
+                     "detail": dict(info, overlapped=repr(out["overlapped"]),
+                                    later=repr(out["later"]))})
+    else:
+        acs, names = expected_structure(inst)
+        got = set(out["snap"]["acs"])
+        if got != set(acs):
+            viol.append({"mechanism": "air-conditioners-differ-from-console",
+                         "detail": dict(info, got=sorted(got), want=sorted(acs))})
+        elif out["open_at_end"]:
+            viol.append({"mechanism": "connection-left-open-after-final-shutdown",
+                         "detail": dict(info, open=out["open_at_end"])})
+        else:
+            obs["init_overlapping_a_shutdown"] = 1
+    return {"violations": viol, "evals": 1, "decided": 0 if viol else 1, "distinct": 1,
+            "obs": obs, "sample": info}
+
+
 def run_case(case):
     if case.get("k") == "retry":
         return run_retry(case)
+    if case.get("k") == "overlap":
+        return run_overlap(case)
     gen = case["gen"]
     rnd = random.Random(case["seed"])
     inst, meta = installation(gen, rnd, case.get("zones"))
